@@ -51,13 +51,17 @@ PROPERTIES["C08"] = dict(
     ],
     harnesses=[
         H("document::__verif::c08_p1_q", Q, "get_insertion_index == LSP offset (UTF-16 columns, clamping)", "any valid UTF-8 text <= 5 bytes; line <= 6, character <= 7; unwind 7", timeout=900),
+        H("document::__verif::c08_p1b_q", Q, "as_index_range == (LSP offset of start)..(LSP offset of end)", "any valid UTF-8 text <= 4 bytes; two positions <= (5,6); unwind 6", timeout=900),
         H("document::__verif::c08_p2_q", Q, "as_position == LSP position; get_insertion_index(as_position(i)) == i; out-of-range index clamps; as_pos_range", "any valid UTF-8 text <= 5 bytes; index <= 7; unwind 7", timeout=900),
+        H("document::__verif::c08_p2r_q", Q, "round trip get_insertion_index(as_position(i)) == i on texts that may contain a lone CR", "any valid UTF-8 text <= 4 bytes (no CR restriction); unwind 6", timeout=900),
         H("document::__verif::c08_p3_one_change_a", QT, "one symbolic content change (ranged or range-less): fold(to_text_changes) == LSP reference; no panic", "concrete text 'a<U+1F600>LF b' (7 B); kind, positions <= (3,5) incl. overshoot, inserted string in {'', x, LF, U+1F600} symbolic; unwind 14", timeout=1500, mem_gb=24, search_boxes=[[(1, 1, 1), (1, 0, 3), (4, 0, 3), (4, 0, 5), (4, 0, 3), (4, 0, 5)], [(1, 0, 0), (1, 0, 3)]]),
         H("document::__verif::c08_p3_one_change_b", QT, "same", "concrete text '<e-acute>CRLF x LF' (6 B)", timeout=1500, mem_gb=24, search_boxes=[[(1, 1, 1), (1, 0, 3), (4, 0, 3), (4, 0, 5), (4, 0, 3), (4, 0, 5)], [(1, 0, 0), (1, 0, 3)]]),
         H("document::__verif::c08_p3_one_change_c", QT, "same", "empty document", timeout=1500, mem_gb=24, search_boxes=[[(1, 1, 1), (1, 0, 3), (4, 0, 3), (4, 0, 5), (4, 0, 3), (4, 0, 5)], [(1, 0, 0), (1, 0, 3)]]),
         H("document::__verif::c08_p3_one_change_d", QT, "same", "concrete text 'a LF' (2 B)", timeout=1500, mem_gb=24, search_boxes=[[(1, 1, 1), (1, 0, 3), (4, 0, 3), (4, 0, 5), (4, 0, 3), (4, 0, 5)], [(1, 0, 0), (1, 0, 3)]]),
         H("document::__verif::c08_twin_must_fail", QT, "vacuity twin: end of harness reachable", "", expect="fail", timeout=600),
         H("document::__verif::c08_p1_t", T, "get_insertion_index == LSP offset", "any valid UTF-8 text <= 12 bytes; line <= 13, character <= 14; unwind 14", timeout=7200, mem_gb=30),
+        H("document::__verif::c08_p1b_t", T, "as_index_range == (LSP offset of start)..(LSP offset of end)", "any valid UTF-8 text <= 8 bytes; unwind 10", timeout=5400, mem_gb=30),
+        H("document::__verif::c08_p2r_t", T, "round trip on texts that may contain a lone CR", "any valid UTF-8 text <= 8 bytes; unwind 10", timeout=5400, mem_gb=30),
         H("document::__verif::c08_p2_t", T, "as_position / round trip", "any valid UTF-8 text <= 12 bytes; index <= 14; unwind 14", timeout=7200, mem_gb=30),
     ],
 )
@@ -96,7 +100,7 @@ PROPERTIES["C14"] = dict(
 PROPERTIES["C15"] = dict(
     crate_dir="lsp4spl",
     attach={"document.rs": "lsp4spl/src/document.rs", "semantic_tokens.rs": "lsp4spl/src/features/semantic_tokens.rs"},
-    functions={"lsp4spl/src/features/semantic_tokens.rs": ["collect_error", "collect_type_dec", "map_token", "create_semantic_token"],
+    functions={"lsp4spl/src/features/semantic_tokens.rs": ["collect_error", "collect_type_dec", "collect_proc_dec", "map_token", "create_semantic_token"],
                "lsp4spl/src/document.rs": ["as_position"]},
     explanation=(
         "The real collect_error / map_token / create_semantic_token (with the real document::as_position) are executed "
@@ -109,7 +113,8 @@ PROPERTIES["C15"] = dict(
         "token kinds are decoupled from the text (any kind on any char-boundary range): an over-approximation of what the lexer produces",
         "tokens are increasing and non-overlapping, on char boundaries, inside the text (what C06 guarantees for the lexer)",
         "texts with a lone CR are assumed away (shared text generator of C08)",
-        "binding kinds (type/function/parameter/variable) and the declaration modifier need the symbol table (HashMap): outside",
+        "binding kinds of RESOLVED identifiers and the declaration modifier need a populated symbol table (HashMap): outside; collect_proc_dec is run with an EMPTY GlobalTable",
+        "environment stub (one harness, c15_s1_procdec_across): std RandomState::new() (OS randomness via syscall) replaced by arbitrary symbolic keys",
         "color-eyre replaced by a compile-only stand-in; harness-owned values are mem::forget-ed",
         "trusted: kani-compiler, CBMC, CaDiCaL",
     ],
@@ -119,6 +124,7 @@ PROPERTIES["C15"] = dict(
         H("features::semantic_tokens::__verif::c15_s1_chain_q", Q, "create_semantic_token/map_token: delta of two consecutive classified tokens decodes to their LSP positions; UTF-16 length", "any valid UTF-8 text <= 4 bytes, 2 tokens on symbolic char-boundary ranges; unwind 6", timeout=1200),
         H("features::semantic_tokens::__verif::c15_s1_collect_across", QT, "real collect_error on two consecutive declarations sharing previous_token_pos", "same text, one token of symbolic kind/range per declaration", timeout=1500, mem_gb=24),
         H("features::semantic_tokens::__verif::c15_s1_typedec_across", QT, "real collect_type_dec on two consecutive type declarations sharing previous_token_pos; identifiers classified as TYPE", "concrete 13-byte text, one token of symbolic kind/range per declaration (name: None)", timeout=1500, mem_gb=24),
+        H("features::semantic_tokens::__verif::c15_s1_procdec_across", QT, "real collect_proc_dec (empty symbol table) on two consecutive procedure declarations sharing previous_token_pos", "concrete 13-byte text, one token of symbolic kind/range per declaration", timeout=1500, mem_gb=24),
         H("features::semantic_tokens::__verif::c15_s3_all_kinds", QT, "map_token for each of the 36 token kinds", "one token, all kinds, symbolic literal values", timeout=600),
         H("features::semantic_tokens::__verif::c15_twin_must_fail", QT, "vacuity twin", "", expect="fail", timeout=600),
         H("features::semantic_tokens::__verif::c15_s1_chain_t", T, "same as s1_chain_q", "any valid UTF-8 text <= 6 bytes; unwind 8", timeout=3600, mem_gb=24),
